@@ -20,7 +20,7 @@ def work(args):
                 for p in props:
                     env = dict(os.environ, PMH_EVIDENCE_DIR="/tmp/pmh-ev-reseed%d" % slot)
                     r = subprocess.run([os.path.join(V, "bin", "pmhcheck"), p, "--src", sc, "--work", "reseed%d" % slot], env=env, capture_output=True, text=True)
-                    det[p] = {"exit": r.returncode, "rules": sorted(set(re.findall(r"rule ([A-Za-z-]+) violated", r.stdout)))}
+                    det[p] = {"exit": r.returncode, "rules": sorted(set(re.findall(r"rule ([A-Za-z0-9-]+) violated", r.stdout)))}
         finally:
             scratch.remove(sc)
             shutil.rmtree("/tmp/pmh-ev-reseed%d" % slot, ignore_errors=True)
